@@ -3,6 +3,9 @@
    ttconv/time_code.py), S = Spec/Smpte12M.v.  All statements are for unbounded n. *)
 From TT Require Import Base.Prelude Model.TimeCode Spec.Smpte12M.
 From TT Require Import Proofs.C12.Integer Proofs.C12.DropFrame Proofs.C12.Derived.
+(* second tie: Gen/TimeCodeSrc.v is regenerated from ttconv/time_code.py by harness/pytrans.py on every run;
+   its definitions src_* are written over Base/PyNum.v (exact Python numerics); see the last section *)
+From TT Require Import Base.PyNum Gen.TimeCodeSrc Proofs.C12.SrcRefines.
 
 (* frame count -> label -> frame count is the identity *)
 Theorem C12_roundtrip_24 : forall n, 0 <= n -> to_frames r24 (from_frames r24 n) = n.  Proof. exact rt24. Qed.
@@ -93,3 +96,84 @@ Print Assumptions C12_boundary.  Print Assumptions C12_from_seconds_floor.
 Print Assumptions C12_parse_print.
 Print Assumptions C12_clock_nearest.  Print Assumptions C12_clock_monotone.  Print Assumptions C12_clock_fields.
 Print Assumptions C12_clock_exact.
+
+(* ==================================================================================================
+   The model regenerated from the current source refines to M.  inj / inj_frac / inj_rate / inj_tc /
+   inj_clock inject M's integers, fractions, rates, labels into the Python values of Base/PyNum.v;
+   rate_ok r: numerator and denominator positive and coprime (as fractions.Fraction holds a rate) -
+   in particular the 8 rates of the property.  All for unbounded frame counts, labels and rationals.   *)
+Theorem C12_source_refines_is_drop_frame : forall r l, rate_ok r -> src_is_drop_frame (inj_tc r l) = is_df r.
+Proof. exact src_is_drop_frame_refines. Qed.
+Theorem C12_source_refines_to_seconds : forall r h m s f,
+  src_hhmmss_to_seconds (inj_tc r (h, m, s, f)) = inj (h * 3600 + m * 60 + s).
+Proof. exact src_hhmmss_to_seconds_refines. Qed.
+Theorem C12_source_refines_to_frames : forall r l, rate_ok r -> label_nonneg l ->
+  src_to_frames (inj_tc r l) = inj (to_frames r l).
+Proof. exact src_to_frames_refines. Qed.
+Theorem C12_source_refines_to_temporal_offset : forall r l, rate_ok r -> label_nonneg l ->
+  src_to_temporal_offset (inj_tc r l) = inj_frac (fst (to_temporal_offset r l)) (snd (to_temporal_offset r l)).
+Proof. exact src_to_temporal_offset_refines. Qed.
+Theorem C12_source_refines_from_frames : forall r n, rate_ok r ->
+  src_from_frames (inj n) (Some (inj_rate r)) = Ok (inj_tc r (from_frames r n)).
+Proof. exact src_from_frames_refines. Qed.
+Theorem C12_source_refines_from_frames_none : forall x, src_from_frames x None = Raise ValueError.
+Proof. exact src_from_frames_none. Qed.
+Theorem C12_source_refines_add_frames : forall r k l, rate_ok r -> label_nonneg l ->
+  src_add_frames (inj_tc r l) (inj k) = Ok (inj_tc r (add_frames r k l)).
+Proof. exact src_add_frames_refines. Qed.
+Theorem C12_source_refines_from_seconds : forall r sn sd, rate_ok r -> 0 <= sn -> 0 < sd ->
+  src_from_seconds (Exact (inj_frac sn sd)) (Some (inj_rate r)) = Ok (inj_tc r (from_seconds r sn sd)).
+Proof. exact src_from_seconds_refines. Qed.
+(* a float argument leaves the exact model: the translator emits Unsupported, nothing is claimed *)
+Theorem C12_source_refines_from_seconds_float : forall r, exists why, src_from_seconds Inexact (Some (inj_rate r)) = Unsupported why.
+Proof. exact src_from_seconds_float. Qed.
+Theorem C12_source_refines_clock_from_seconds : forall n d, 0 < d ->
+  src_clock_from_seconds (inj_frac n d) =
+  match clock_from_seconds n d with Some l => Ok (inj_clock l) | None => Raise ValueError end.
+Proof. exact src_clock_from_seconds_refines. Qed.
+(* the f-strings of the two __str__ methods are the text functions of M (fields below 10^20, the fuel of M's printer) *)
+Theorem C12_source_refines_tc_str : forall r l, rate_ok r -> label_printable l -> src_tc_str (inj_tc r l) = print_tc r l.
+Proof. exact src_tc_str_refines. Qed.
+Theorem C12_source_refines_clock_str : forall sep l, label_printable l ->
+  src_clock_str (ClockTime_set_ms_separator (inj_clock l) [sep]) = print_clock sep l.
+Proof. exact src_clock_str_refines. Qed.
+
+(* the headline theorems restated about the regenerated model; smpte_rates = the 7 rates with their (F, D);
+   src_frames_label r n l := src_from_frames (inj n) (Some (inj_rate r)) = Ok (inj_tc r l) *)
+Theorem C12_src_roundtrip : forall r F D n, In (r, F, D) smpte_rates -> 0 <= n ->
+  exists tc, src_from_frames (inj n) (Some (inj_rate r)) = Ok tc /\ src_to_frames tc = inj n.
+Proof. exact src_roundtrip. Qed.
+Theorem C12_src_valid : forall r F D n, In (r, F, D) smpte_rates -> 0 <= n ->
+  exists l, src_frames_label r n l /\ valid F D l.
+Proof. exact src_valid. Qed.
+Theorem C12_src_succ : forall r F D n, In (r, F, D) smpte_rates -> 0 <= n ->
+  exists l, src_frames_label r n l /\ src_frames_label r (n + 1) (succ F D l).
+Proof. exact src_succ. Qed.
+Theorem C12_src_monotone : forall r F D n m, In (r, F, D) smpte_rates -> 0 <= n < m ->
+  exists l l', src_frames_label r n l /\ src_frames_label r m l' /\ lt_label l l'.
+Proof. exact src_monotone. Qed.
+Theorem C12_src_boundary : forall r k, rate_ok r -> 0 <= k ->
+  src_from_seconds (Exact (inj_frac (k * rd r) (rn r))) (Some (inj_rate r)) = src_from_frames (inj k) (Some (inj_rate r)).
+Proof. exact src_boundary. Qed.
+Theorem C12_src_clock_nearest : forall n d, 0 <= n -> 0 < d ->
+  exists h m s ms, src_clock_from_seconds (inj_frac n d) = Ok (ClockTime_new (inj h) (inj m) (inj s) (inj ms)) /\
+    0 <= h /\ 0 <= m < 60 /\ 0 <= s < 60 /\ 0 <= ms < 1000 /\
+    2 * Z.abs ((((h * 60 + m) * 60 + s) * 1000 + ms) * d - 1000 * n) <= d.
+Proof. exact src_clock_nearest. Qed.
+
+(* non-vacuity: the 8 rates satisfy rate_ok; concrete values through the regenerated model *)
+Example C12_src_rates_ok : rate_ok r24 /\ rate_ok r25 /\ rate_ok r30 /\ rate_ok r50 /\ rate_ok r60 /\
+                           rate_ok r2997 /\ rate_ok r5994 /\ rate_ok r23976.
+Proof. exact rate_ok_8. Qed.
+Example C12_src_example_skip :
+  src_frames_label r2997 1800 (0, 1, 0, 2) /\ src_frames_label r2997 17982 (0, 10, 0, 0) /\ In (r5994, 60, 4) smpte_rates.
+Proof. exact src_example_skip. Qed.
+
+Print Assumptions C12_source_refines_is_drop_frame.  Print Assumptions C12_source_refines_to_seconds.
+Print Assumptions C12_source_refines_to_frames.  Print Assumptions C12_source_refines_to_temporal_offset.
+Print Assumptions C12_source_refines_from_frames.  Print Assumptions C12_source_refines_from_frames_none.
+Print Assumptions C12_source_refines_add_frames.  Print Assumptions C12_source_refines_from_seconds.
+Print Assumptions C12_source_refines_from_seconds_float.  Print Assumptions C12_source_refines_clock_from_seconds.
+Print Assumptions C12_source_refines_tc_str.  Print Assumptions C12_source_refines_clock_str.
+Print Assumptions C12_src_roundtrip.  Print Assumptions C12_src_valid.  Print Assumptions C12_src_succ.
+Print Assumptions C12_src_monotone.  Print Assumptions C12_src_boundary.  Print Assumptions C12_src_clock_nearest.
